@@ -879,7 +879,7 @@ func probeTokens(rt *rapid.T, sc *scenario, sw *swarm.Swarm, ps interface {
 
 func TestDialSchedules(t *testing.T) {
 	name := t.Name()
-	hx.Check(t, 20000, 400000, 0, func(rt *rapid.T) {
+	hx.Check(t, 20000, 3000000, 0, func(rt *rapid.T) {
 		sc := drawScenario(rt)
 		runScenario(t, rt, name, sc)
 	})
@@ -889,7 +889,7 @@ func TestDialSchedules(t *testing.T) {
 // with a non-negative delay.
 func TestRankerPermutation(t *testing.T) {
 	name := t.Name()
-	hx.Check(t, 3000, 100000, 0, func(rt *rapid.T) {
+	hx.Check(t, 3000, 600000, 0, func(rt *rapid.T) {
 		as := drawAddrs(rt, rapid.IntRange(0, 2).Draw(rt, "pi"))
 		var in []ma.Multiaddr
 		seen := map[string]bool{}
